@@ -45,13 +45,13 @@ func (s *memStream) Read(p []byte) (int, error) {
 	}
 	return s.r.Read(p)
 }
-func (s *memStream) Close() error                            { return nil }
-func (s *memStream) StreamID() quic.StreamID                 { return 4 }
+func (s *memStream) Close() error                             { return nil }
+func (s *memStream) StreamID() quic.StreamID                  { return 4 }
 func (s *memStream) CancelWrite(webtransport.StreamErrorCode) {}
 func (s *memStream) CancelRead(webtransport.StreamErrorCode)  {}
-func (s *memStream) SetWriteDeadline(time.Time) error        { return nil }
-func (s *memStream) SetReadDeadline(time.Time) error         { return nil }
-func (s *memStream) SetDeadline(time.Time) error             { return nil }
+func (s *memStream) SetWriteDeadline(time.Time) error         { return nil }
+func (s *memStream) SetReadDeadline(time.Time) error          { return nil }
+func (s *memStream) SetDeadline(time.Time) error              { return nil }
 func (s *memStream) Bytes() []byte {
 	s.mu.Lock()
 	defer s.mu.Unlock()
@@ -479,12 +479,12 @@ func wtwScenarios(behs [][]map[string]any, seed int64, nRandom int) []Scenario {
 // ---------------------------------------------------------------- reader family
 
 type rdOp struct {
-	Op     string `json:"op"`            // next | read | stale
-	Res    string `json:"res"`           // text | binary | ok | eof | err
-	N      int    `json:"n"`             // bytes returned
-	Err    string `json:"err"`           // error class: "", unexpected, limit, eof, injected, other
-	Errs   string `json:"errs"`          // error string (stickiness = same string)
-	Intact bool   `json:"intact"`        // bytes equal the stream's payload at that position
+	Op     string `json:"op"`             // next | read | stale
+	Res    string `json:"res"`            // text | binary | ok | eof | err
+	N      int    `json:"n"`              // bytes returned
+	Err    string `json:"err"`            // error class: "", unexpected, limit, eof, injected, other
+	Errs   string `json:"errs"`           // error string (stickiness = same string)
+	Intact bool   `json:"intact"`         // bytes equal the stream's payload at that position
 	Want   int    `json:"want,omitempty"` // read: size of the buffer offered
 }
 
